@@ -226,13 +226,19 @@ struct ValueModel {
     void decode(Src &s) { static const std::vector<double> pal = {0.7, -0.4, 0.3, 0.9, 1.3, -1.1, 0.15, 2.0};
         for (auto &x : w) x = s.of(pal); phase = 0.1 * s.pick(16); q = 0.5 + 0.25 * s.pick(6);
         if (s.chance(1, 2)) { static const std::vector<double> cp = {0.3, -0.6, 0.0, 0.55, -0.25, 0.8, -0.9}; bump = 1.5 + 0.5 * s.pick(4); for (auto &c : centre) c = s.of(cp); sharp = 10.0 * (1 + s.pick(6)); } }
+    // degenerate models (set by a property, never by decode): 1 constant per output, 2 affine with dyadic slopes, 3 a function of the first coordinate only.
+    // Their hierarchical surpluses vanish EXACTLY at many points, which is what decides "coefficient 0 versus tolerance 0" in the refinement rules.
+    int degenerate = 0;
     double operator()(const double *x, int dims, int k, int salt) const {
+        if (degenerate == 1) return 1.0 + k + 0.5 * salt;
+        if (degenerate == 2) { double v = 2.0 + k + 0.5 * salt; for (int j = 0; j < dims; j++) v += (0.5 - 0.25 * ((j + k) % 3)) * x[j]; return v; }
+        if (degenerate == 3) dims = 1;
         double a = phase + 0.37 * salt + 0.9 * k, r2 = 0, b2 = 0;
         // outputs k >= 1 weight the directions differently and move the local feature (outputs must disagree on where to refine; k = 0 is unchanged)
         for (int j = 0; j < dims; j++) { double t = x[j] / (1.0 + 0.1 * std::fabs(x[j])); double c = (k % 2) ? -centre[j] : centre[j]; a += w[(j + k) % 4] * (1.0 + 0.75 * ((j + k) % 3 == 0 ? k : 0)) * t; r2 += t * t; b2 += (t - c) * (t - c); }
         return (1.0 + k) + 0.75 * std::sin(a) + 0.25 * std::cos(q * r2 / (1.0 + 0.2 * r2) + salt) + (bump != 0.0 ? bump * std::exp(-sharp * b2) : 0.0);
     }
-    std::string text() const { std::ostringstream o; o << "vm w=" << w[0] << "," << w[1] << "," << w[2] << "," << w[3] << " ph=" << phase << " q=" << q;
+    std::string text() const { std::ostringstream o; if (degenerate) o << "vm degenerate=" << (degenerate == 1 ? "constant" : degenerate == 2 ? "affine" : "first-coordinate-only") << " "; o << "vm w=" << w[0] << "," << w[1] << "," << w[2] << "," << w[3] << " ph=" << phase << " q=" << q;
         if (bump != 0.0) o << " bump=" << bump << "@" << centre[0] << "," << centre[1] << "," << centre[2] << "," << centre[3] << " sharp=" << sharp; return o.str(); }
 };
 
